@@ -143,10 +143,10 @@ pub fn run(_cfg: &Cfg) -> (Log, Meta) {
     }
   }
   log.floor("windows.checked", 9_000);
-  log.floor("windows.with_13_lunations", 3_000);
-  log.floor("lunations.checked", 110_000);
-  log.floor("lunations.without_a_major_term", 3_000);
-  log.floor("years.leap_years_checked", 3_000);
+  log.floor("windows.with_13_lunations", 2_000);
+  log.floor("lunations.checked", 100_000);
+  log.floor("lunations.without_a_major_term", 2_000);
+  log.floor("years.leap_years_checked", 2_000);
   let meta = Meta {
     rule: "exhaustive over the stated domain: every winter-solstice-to-winter-solstice window whose two lunar years lie in 27..9998 and outside 238..240; each lunation of the window is labelled by the rule (solstice month = 11; with 13 lunations the first one holding no major term is the leap month and repeats the previous number) from the library's own new-moon days and calendar-making major-term days, and compared with the library's label; leap month and month count of every fully covered year compared as well. Non-trivial = 13-lunation windows and lunations holding two major terms (counted). Windows outside the domain are counted, not judged.".into(),
     assumptions: vec!["inputs of the rule are the library's own new-moon days (LunarMonth::get_first_julian_day) and SolarTerm::get_cursory_julian_day; their astronomy is C05's subject".into()],
